@@ -50,6 +50,8 @@ pub struct BlkPers {
     pub disk: BTreeMap<u64, Vec<u8>>,
     /// statuses to answer with, in order of arrival (default 0)
     pub statuses: VecDeque<u8>,
+    /// id queries answered so far
+    pub ids: u32,
 }
 impl BlkPers {
     fn sector(&self, s: u64) -> Vec<u8> {
@@ -79,6 +81,7 @@ impl Personality for BlkPers {
                      "rl":rl,"wl":wl,"dg":fnv64(data)}));
         let status = self.statuses.pop_front().unwrap_or(0);
         let mut out: Vec<u8> = vec![];
+        let mut idj: Option<Vec<u64>> = None;
         let dlen = wtotal - 1;
         match ty {
             0 => {
@@ -95,15 +98,22 @@ impl Personality for BlkPers {
                 }
             }
             8 => {
-                out = b"verif-disk-0001".to_vec();
+                // NUL-padded id strings of every length, the full 20 bytes included
+                let n = [20usize, 0, 19, 1, 20, 15, 7][(self.ids % 7) as usize];
+                self.ids += 1;
+                out = b"verif-disk-0001-xyzw"[..n].to_vec();
                 out.resize(dlen, 0);
+                idj = Some(out.iter().take(20).map(|b| *b as u64).collect());
             }
             _ => {}
         }
         let supplied = fnv64(&out);
         out.resize(dlen, 0);
         out.push(status);
-        w.dev(json!({"e":"DevResp","tok":chain.head,"status":status,"dg":supplied}));
+        match idj {
+            Some(id) => w.dev(json!({"e":"DevResp","tok":chain.head,"status":status,"dg":supplied,"id":id})),
+            None => w.dev(json!({"e":"DevResp","tok":chain.head,"status":status,"dg":supplied})),
+        }
         Some(Response { data: out, used_len: None })
     }
 }
@@ -276,7 +286,7 @@ pub fn run(p: &BlkParams, sc: &str) -> (Vec<Vec<String>>, Value) {
     let mut cfg = crate::zoo::config_space("blk");
     let cap: u64 = [0x40u64, 0x1_0000_0040, 0xffff_ffff_ffff_ffff, 1][rng.gen_range(0..4)];
     cfg[0..8].copy_from_slice(&cap.to_le_bytes());
-    engine::install(Box::new(BlkPers { disk: BTreeMap::new(), statuses: VecDeque::new() }), policy_of(&p.policy), p.seed ^ 0x55, true);
+    engine::install(Box::new(BlkPers { disk: BTreeMap::new(), statuses: VecDeque::new(), ids: 0 }), policy_of(&p.policy), p.seed ^ 0x55, true);
     let t = tmake::make(&p.transport, "blk", p.offered, p.legacy, 32768, cfg);
     let neg_ro = p.offered >> 5 & 1 == 1;
     let neg_flush = p.offered >> 9 & 1 == 1;
